@@ -8,12 +8,16 @@ import (
 	"bytes"
 	"encoding/json"
 	"fmt"
+	"github.com/dtn7/dtn7-go/pkg/cla"
 	"io"
 	"math"
 	"math/rand"
 	"os"
 	"path/filepath"
+	"sync"
+	"sync/atomic"
 	"testing"
+	"time"
 
 	log "github.com/sirupsen/logrus"
 
@@ -187,5 +191,64 @@ func TestVerifC19Numeric(t *testing.T) {
 	}
 	vhStat("records", nrec)
 	vhStat("runs", runs)
+	vhDone()
+}
+
+// TestVerifC19Concurrent: peers appear (the node copies its table into a summary vector), the table is aged, vectors arrive and
+// forwarding decisions are taken at the same time, on a table of a thousand nodes. Run with the race detector: an unsynchronised
+// access to the tables is reported there at once; without it the Go runtime ends the process with "concurrent map ..." sooner
+// or later. The property demands that this never crashes the node.
+func TestVerifC19Concurrent(t *testing.T) {
+	log.SetOutput(io.Discard)
+	dir := filepath.Join(vhScratch(), "prophet-conc")
+	_ = os.RemoveAll(dir)
+	c, err := NewCore(dir, bpv7.MustNewEndpointID(vcNode), false, RoutingConf{Algorithm: "prophet",
+		ProphetConf: ProphetConfig{PInit: 0.75, Beta: 0.25, Gamma: 0.98, AgeInterval: "1000h"}}, nil)
+	if err != nil {
+		t.Fatal(err)
+	}
+	defer c.Close()
+	for _, j := range vcCronJobs {
+		c.cron.Unregister(j)
+	}
+	pr := c.routing.(*Prophet)
+	for i := 0; i < 1000; i++ {
+		pr.encounter(bpv7.MustNewEndpointID(fmt.Sprintf("dtn://known%d/", i)))
+	}
+	peers := []*vcPeer{}
+	for i := 0; i < 4; i++ {
+		p := &vcPeer{name: fmt.Sprintf("q%d", i), eid: bpv7.MustNewEndpointID(fmt.Sprintf("dtn://q%d/", i)), ch: make(chan cla.ConvergenceStatus, 1024), up: true}
+		peers = append(peers, p)
+	}
+	dur := time.Duration(vhEnvInt("VERIF_MS", 1500)) * time.Millisecond
+	stop := time.Now().Add(dur)
+	var wg sync.WaitGroup
+	var ops [4]int64
+	run := func(k int, fn func(i int)) {
+		wg.Add(1)
+		go func() {
+			defer wg.Done()
+			for i := 0; time.Now().Before(stop); i++ {
+				fn(i)
+				atomic.AddInt64(&ops[k], 1)
+			}
+		}()
+	}
+	run(0, func(i int) { pr.ageCron() })
+	run(1, func(i int) { pr.ReportPeerAppeared(peers[i%len(peers)]) })
+	run(2, func(i int) {
+		p := peers[i%len(peers)]
+		vec := map[bpv7.EndpointID]float64{bpv7.MustNewEndpointID(fmt.Sprintf("dtn://known%d/", i%1000)): 0.5, bpv7.MustNewEndpointID("dtn://far/"): 0.25}
+		b, err := bpv7.Builder().Source(p.eid).Destination(vcNode).CreationTimestampTime(time.Now().Add(time.Duration(i) * time.Millisecond)).
+			Lifetime("1h").BundleCtrlFlags(bpv7.MustNotFragmented).PayloadBlock([]byte("vector")).Canonical(bpv7.NewProphetBlock(vec)).Build()
+		if err == nil {
+			pr.NotifyNewBundle(BundleDescriptor{Id: b.ID(), bndl: &b, store: c.store, Constraints: map[Constraint]bool{}, Tags: map[Tag]struct{}{}})
+		}
+	})
+	run(3, func(i int) { pr.ReportPeerDisappeared(peers[i%len(peers)]) })
+	wg.Wait()
+	for k, n := range ops {
+		vhStat(fmt.Sprintf("concurrent_ops_%d", k), int(n))
+	}
 	vhDone()
 }
